@@ -17,11 +17,9 @@ func (t *WeightedMerkleTrie) GetPath(keys [][]byte) ([]byte, error) {
 
 	if t.root != nil {
 		if node, ok := t.root.(*hashNode); ok {
-			data, err := t.db.Get(node.Hash())
-			if err != nil {
-				return nil, err
-			}
-			loadedNode, err := DeserializeNode(data)
+			// resolveHashNode reports a missing storage instead of dereferencing it: a trie imported
+			// from an export of no keys has a reference as its root and no storage
+			loadedNode, err := t.resolveHashNode(node)
 			if err != nil {
 				return nil, err
 			}
